@@ -6,7 +6,7 @@
     zero-length first/middle segments, pointers out of range, more than 64 hop fields.
     [wf p]: p is a model the encoder accepts (wire_valid, with the CurrHF range check of the
     C03 repair) whose fields are inside the ranges of their Rust types. *)
-From Sci Require Import StdPath.Model StdPath.Spec StdPath.Proofs StdPath.ProofsRev StdPath.ProofsEnc StdPath.ProofsQuery.
+From Sci Require Import StdPath.Model StdPath.ModelRouting StdPath.Spec StdPath.Proofs StdPath.ProofsRev StdPath.ProofsEnc StdPath.ProofsQuery StdPath.ProofsOneHop.
 Local Open Scope N_scope.
 
 (** Reversing the encoded bytes in place gives exactly the encoding of the reversed model,
@@ -61,18 +61,19 @@ Theorem to_model_encode_id :
 Proof. intros p H. apply from_view_encode_wfp. apply wf_inv. exact H. Qed.
 Print Assumptions to_model_encode_id.
 
-(** Segment queries.  The iterator yields exactly the leading non-empty segments on EVERY byte
-    string; on an encoding these are the model's segments, and the counts agree.
-    PARTIAL with respect to "interface and segment queries": [calculate_segment_index] and the
-    interface accessors are compared with their specification ([Spec.sp_seg_index]) by the
-    correspondence check only. *)
-Theorem queries_agree_partial :
+(** Segment queries (the owned model offers no interface queries; those exist on views only).
+    On EVERY byte string the iterator yields exactly the leading non-empty segments and
+    [calculate_segment_index] meets its specification ([Spec.sp_seg_index]: the position of the
+    hop in the list of all hops tagged with segment index / first / last); on an encoding the
+    counts are the model's. *)
+Theorem queries_agree :
   (forall b, view_segments b = Ok (segments_spec (seg0_len b) (seg1_len b) (seg2_len b)))
+  /\ (forall b k, calculate_segment_index b k = sp_seg_index (seg_lens b) k)
   /\ (forall p, wf p ->
         hop_count (encode p) = m_hop_count p /\ info_count (encode p) = m_info_count p
         /\ total_segments (encode p) = m_info_count p).
 Proof.
-  split; [exact view_segments_spec|]. intros p H. apply wf_inv in H.
+  split; [exact view_segments_spec|]. split; [exact calc_seg_index_spec|]. intros p H. apply wf_inv in H.
   destruct (encode_assembled p H) as (l0 & l1 & l2 & Epad & Eenc & Hm & Hs & Hl0 & Hrc & Hsum).
   rewrite Eenc. unfold hop_count, info_count, total_segments, m_info_count.
   rewrite (asm_seg0 _ _ _ _ _ _ _ _ Hm), (asm_seg1 _ _ _ _ _ _ _ _ Hm), (asm_seg2 _ _ _ _ _ _ _ _ Hm).
@@ -80,7 +81,7 @@ Proof.
   - rewrite <- (sh_if_cnt _ _ _ _ _ Hs). unfold infos_of. now rewrite !map_length.
   - rewrite <- Hrc. unfold rev_seg_count. destruct (l0 =? 0) eqn:E; [apply N.eqb_eq in E; contradiction|reflexivity].
 Qed.
-Print Assumptions queries_agree_partial.
+Print Assumptions queries_agree.
 
 (** One-hop paths: in-place reversal of the view = reversal of the model, and the conversion
     to a reversed standard path is the meta header followed by the reversed view. *)
@@ -94,6 +95,19 @@ Proof.
   intros sp E. apply (oh_conversion_agrees p H sp E).
 Qed.
 Print Assumptions onehop_agrees.
+
+(** set_second_hop on the one-hop view and on the one-hop model build the same path, for every
+    MAC function (the premise only says that the MAC used has at least the six bytes kept). *)
+Theorem onehop_set_second_hop_agrees :
+  forall (cmac : list N -> list N -> list N) (p : onehop) (ingress : N) (key : list N) (advanced : bool),
+    onehop_typed p = true -> ingress < 65536 ->
+    (6 <= length (cmac key (mac_input
+            (if advanced then i_segid (o_info p) else mac_beta_step (i_segid (o_info p)) (h_mac (o_hop1 p)))
+            (i_ts (o_info p)) (h_exp (o_hop1 p)) ingress 0)))%nat ->
+    oh_view_set_second_hop cmac (oh_encode p) ingress key advanced
+    = oh_encode (oh_model_set_second_hop cmac p ingress key advanced).
+Proof. intros. apply oh_set_second_hop_commutes; assumption. Qed.
+Print Assumptions onehop_set_second_hop_agrees.
 
 (** An operation that reports an error leaves its operand untouched: EVERY byte string (view,
     one-hop view), every model, every ScionPath. *)
